@@ -163,6 +163,11 @@ void vf_env(void);
 #else
 static inline void vf_env(void){}
 #endif
+/* a weak compare-exchange may fail spuriously; bounded so that retry loops terminate */
+#ifndef VF_SPURIOUS
+#define VF_SPURIOUS 1
+#endif
+unsigned vf_spurious_budget = VF_SPURIOUS;
 unsigned char* vf_cancel_addr = 0; unsigned char vf_cancel_state = 0; uint32_t vf_cancel_reads = 0;
 static inline void vf_register_cancel(unsigned char* p){ vf_cancel_addr = p; vf_cancel_state = 0; vf_cancel_reads = 0; }
 static inline unsigned char vf_cancel_fired(void){ return vf_cancel_state; }
@@ -184,7 +189,7 @@ static inline T vf_atomicrmw_and_##N(T* p, T v){ vf_env(); T o=*p; *p=o&v; retur
 static inline T vf_atomicrmw_umax_##N(T* p, T v){ vf_env(); T o=*p; *p=o>v?o:v; return o; } \
 static inline T vf_atomicrmw_umin_##N(T* p, T v){ vf_env(); T o=*p; *p=o<v?o:v; return o; } \
 static inline unsigned char vf_cmpxchg_##N(T* p, T expected, T desired, int weak, T* old){ vf_env(); T o=*p; *old=o; \
-  if (o != expected) return 0; if (weak && (vf_nondet_u8() & 1)) return 0; *p = desired; return 1; }
+  if (o != expected) return 0; if (weak && vf_spurious_budget > 0 && (vf_nondet_u8() & 1)) { vf_spurious_budget--; return 0; } *p = desired; return 1; }
 VF_RMW(8,uint8_t) VF_RMW(16,uint16_t) VF_RMW(32,uint32_t) VF_RMW(64,uint64_t)
 static inline uint32_t vf_atomicrmw_max_32(uint32_t* p, uint32_t v){ vf_env(); uint32_t o=*p; *p=(int32_t)o>(int32_t)v?o:v; return o; }
 static inline uint32_t vf_atomicrmw_min_32(uint32_t* p, uint32_t v){ vf_env(); uint32_t o=*p; *p=(int32_t)o<(int32_t)v?o:v; return o; }
